@@ -135,7 +135,16 @@ func (pr *Loader) findTableBuffer(s tableSection, dst []byte) ([]byte, error) {
 		defer r.Close()
 
 		if cap(dst) < int(s.zLength) {
-			dst = make([]byte, s.zLength)
+			// the uncompressed length comes from the (untrusted) table directory:
+			// let the buffer grow with the data actually decompressed
+			dst, err = io.ReadAll(io.LimitReader(r, int64(s.zLength)))
+			if err != nil {
+				return nil, err
+			}
+			if len(dst) != int(s.zLength) {
+				return nil, io.ErrUnexpectedEOF
+			}
+			return dst, nil
 		}
 		dst = dst[0:s.zLength]
 		if _, err := io.ReadFull(r, dst); err != nil {
@@ -143,6 +152,14 @@ func (pr *Loader) findTableBuffer(s tableSection, dst []byte) ([]byte, error) {
 		}
 	} else {
 		if cap(dst) < int(s.length) {
+			// the length comes from the (untrusted) table directory:
+			// check that the table fits in the file before allocating
+			if s.length != 0 {
+				var last [1]byte
+				if _, err := pr.file.ReadAt(last[:], int64(s.offset)+int64(s.length)-1); err != nil {
+					return nil, err
+				}
+			}
 			dst = make([]byte, s.length)
 		}
 		dst = dst[0:s.length]
